@@ -380,6 +380,7 @@ theorem stepSetOp_inv (R : Render K Unit) (other : Nat → Raw K Unit) (hother :
   | drop => exact OpInv.bind (opInv_drop F) (fun _ => OpInv.pure _)
   | forget => exact OpInv.bind (opInv_forget F) (fun _ => OpInv.pure _)
   | serde dst => exact OpInv.pure _
+  | extend_from o => exact OpInv.pure _
 
 end setops
 
